@@ -9,11 +9,11 @@
          emits a PREDICT line for the first layout on which it deviates - the prediction that the
          harness run then confirms or refutes on the real server;
      (c) emits the document as the surroundings of real iso literals: for every document up to MaxPre
-         symbols one CASE per (literal slot 1, middle text up to MaxMid symbols, literal slot 2),
-         concretised by the driver. *)
+         symbols one CASE per literal slot 1 and, for documents up to MaxPre2 symbols, per (literal slot 1,
+         middle text up to MaxMid symbols, literal slot 2), concretised by the driver. *)
 EXTENDS LspPos, Json
 
-CONSTANTS MaxDoc, MaxPre, MaxMid, Lits1, Lits2, Alphabet
+CONSTANTS MaxDoc, MaxPre, MaxPre2, MaxMid, Lits1, Lits2, Alphabet
 
 VARIABLES doc, emitted
 vars == << doc, emitted >>
@@ -56,8 +56,9 @@ Emit ==
     /\ Len(doc) <= MaxPre =>
          \A l1 \in Lits1 :
             /\ PrintT(<< "CASE", ToJson([ pre |-> doc, lit1 |-> l1, mid |-> << >>, lit2 |-> "-" ]) >>)
-            /\ \A m \in Mids : \A l2 \in Lits2 :
-                 PrintT(<< "CASE", ToJson([ pre |-> doc, lit1 |-> l1, mid |-> m, lit2 |-> l2 ]) >>)
+            /\ Len(doc) <= MaxPre2 =>
+                 \A m \in Mids : \A l2 \in Lits2 :
+                    PrintT(<< "CASE", ToJson([ pre |-> doc, lit1 |-> l1, mid |-> m, lit2 |-> l2 ]) >>)
 
 Extend ==
     /\ emitted
